@@ -10,6 +10,8 @@ package main
 //   H5   one line = one program of io calls on a fresh file, for one element type
 //        ops : H5 id <eltype> nops op…
 //              arr <vals Is> <dims Is> nsl (loc Is, dims Is, step optIs)*   source array = root + chain of slices
+//                  (extents 0 allowed: `arr 0 <dims with a 0> 0` = a fresh empty root, `… 1 loc <dims with a 0> step` = a
+//                  zero-wide slice of a non-empty root; a few percent of the programs, stats key zero_extent_source)
 //              create <path> <shape Is> | write <path> <arr#> | wslice <path> <arr#> <loc Is>
 //              load <path> <sel> | shape <path> | exists <path> | datasets <path> | groups <path>
 //              sel = 0 (Slice == nil) | 1 <n entry*>
@@ -710,10 +712,41 @@ type h5Val struct {
 	vals  []int64
 }
 
+// a shape of the H5 programs: rank >= 1, extents >= 0 (an extent 0 = an array without elements)
+func h5Shape(shape []int) bool {
+	if len(shape) == 0 {
+		return false
+	}
+	for _, d := range shape {
+		if d < 0 {
+			return false
+		}
+	}
+	return true
+}
+
+func firstWord(s string) string {
+	if f := strings.Fields(s); len(f) > 0 {
+		return f[0]
+	}
+	return "none"
+}
+
+// hasZero: the array has no elements because one of its extents is 0
+func (v *h5Val) hasZero() bool {
+	for _, d := range v.shape {
+		if d == 0 {
+			return true
+		}
+	}
+	return false
+}
+
 // row-major values of a root + chain of slices, from the definition "element i of a slice is element loc + i*step"
+// (a slice with an extent 0 has no elements: nothing to look up, whatever its loc)
 func h5RefArr(vals []int64, dims []int, chain [][3][]int) (h5Val, bool) {
 	cur := h5Val{dims, vals}
-	if !validShape(dims) || prod(dims) != len(vals) {
+	if !h5Shape(dims) || prod(dims) != len(vals) {
 		return cur, false
 	}
 	for _, r := range chain {
@@ -724,7 +757,7 @@ func h5RefArr(vals []int64, dims []int, chain [][3][]int) (h5Val, bool) {
 				step[i] = 1
 			}
 		}
-		if len(loc) != len(cur.shape) || len(nd) != len(cur.shape) || len(step) != len(cur.shape) || !validShape(nd) {
+		if len(loc) != len(cur.shape) || len(nd) != len(cur.shape) || len(step) != len(cur.shape) || !h5Shape(nd) {
 			return cur, false
 		}
 		out := make([]int64, prod(nd))
@@ -856,19 +889,49 @@ func (o *h5Oracle) step(t *tokenReader, res string) {
 		o.known[p] = &h5Claim{k.v, "Create on an existing dataset never changes its contents", o.opNo}
 	case "write":
 		p, ai := normPath(t.next()), t.int()
+		k := o.known[p]
 		delete(o.known, p)
-		if res == "ok" && ai >= 0 && ai < len(o.arrs) && o.arrs[ai] != nil {
-			o.known[p] = &h5Claim{*o.arrs[ai], "Write then Load returns the same shape and values", o.opNo}
+		var a *h5Val
+		if ai >= 0 && ai < len(o.arrs) {
+			a = o.arrs[ai]
+		}
+		if a != nil && a.hasZero() {
+			o.c.Stats.Count("zero_extent_result:write:" + firstWord(res))
+			if strings.HasPrefix(res, "panic") {
+				// Write evaluates data.Get(data.NewIndex(0)) after opening (or creating) the file and before any dataset is opened
+				// or created: a Write that panics there has written nothing (write_empty_panics, OW/Props/C08Seq.lean)
+				if k != nil {
+					o.known[p] = &h5Claim{k.v, "ZeroExtent (a Write that panics writes nothing)", o.opNo}
+				}
+				return
+			}
+		}
+		if res == "ok" && a != nil {
+			o.known[p] = &h5Claim{*a, "Write then Load returns the same shape and values", o.opNo}
 		}
 	case "wslice":
 		p, ai, loc := normPath(t.next()), t.int(), t.ints()
 		k := o.known[p]
 		delete(o.known, p)
-		if k == nil || res != "ok" || ai < 0 || ai >= len(o.arrs) || o.arrs[ai] == nil {
+		if ai < 0 || ai >= len(o.arrs) || o.arrs[ai] == nil {
 			return
 		}
 		a := o.arrs[ai]
+		zero := a.hasZero()
+		if zero {
+			o.c.Stats.Count("zero_extent_result:wslice:" + firstWord(res))
+		}
+		// a sub-array with a zero extent: no element is transferred, so also a call that panics (Unroll() = Impl[s:e+1] with
+		// e+1 < s for some zero-wide views that Contiguous() accepts) has written nothing
+		if k == nil || (res != "ok" && !(zero && strings.HasPrefix(res, "panic"))) {
+			return
+		}
 		if len(loc) != len(k.v.shape) || len(a.shape) != len(k.v.shape) {
+			return
+		}
+		if zero {
+			// the block loc + [0, shape) is empty wherever loc is: nothing changes (writeSlice_empty_noop)
+			o.known[p] = &h5Claim{k.v, "ZeroExtent (WriteSlice of a sub-array with a zero extent changes nothing)", o.opNo}
 			return
 		}
 		for d := range loc {
@@ -1090,6 +1153,8 @@ type h5Gen struct {
 	nextV  int
 	hasSel bool
 	hasW   bool
+	z      *Rng     // second stream, used only by zeroOps: the programs without a zero-extent source are drawn as if it did not exist
+	zkeys  []string // what zeroOps drew (counted in the family stats)
 }
 
 var h5Paths = []string{"a", "b", "g/a", "g/b", "g/h/c", "/a", "/g/a", "x/y/z"}
@@ -1111,7 +1176,7 @@ func (g *h5Gen) addArr(rank int, want []int) []int {
 	r := g.r
 	layout := r.Intn(5)
 	if want != nil && !validShape(want) {
-		want, rank = nil, len(want) // no view has an extent 0: some other shape of that rank
+		want, rank = nil, len(want) // no extent 0 here (those sources come from zeroOps): some other shape of that rank
 	}
 	if want != nil && layout != 0 {
 		// a view with exactly the wanted shape: embed it in a larger root
@@ -1189,6 +1254,164 @@ func (g *h5Gen) addArr(rank int, want []int) []int {
 	g.add(fmt.Sprintf("arr %s %s %d%s", Is(vals), Is(root), n, chain))
 	g.arrs = append(g.arrs, shape)
 	return shape
+}
+
+// zeroOps adds a source array with an extent 0 — a fresh root without elements (what data.NewArray(dims) gives; ow-sim makes
+// NewArray3DFloat64(0,0,0) for models without inputs) or a zero-wide slice of a non-empty root — and uses it against a dataset
+// of the same rank: WriteSlice (no element selected: nothing changes, returns nil), then Write (a fresh root panics at
+// data.Get(NewIndex(0)) = Impl[0] and the program halts there; a zero-wide slice reads Impl[Start], which usually exists, and goes
+// on to the shape check / creates an empty dataset). Every draw comes from g.z.
+func (g *h5Gen) zeroOps() {
+	z := g.z
+	key := func(k string) { g.zkeys = append(g.zkeys, "zero_extent:"+k) }
+	// the dataset: an existing one, or a new one at a free path
+	keys := make([]string, 0, len(g.ds))
+	for k := range g.ds {
+		keys = append(keys, k)
+	}
+	sort.Strings(keys)
+	var free []string
+	for _, q := range h5Paths {
+		if _, ok := g.ds[normPath(q)]; !ok && g.creatable(q) {
+			free = append(free, q)
+		}
+	}
+	p, isNew := "", false
+	var shape []int
+	if len(keys) > 0 && (len(free) == 0 || z.Chance(0.7)) {
+		p = keys[z.Intn(len(keys))]
+		shape = g.ds[p]
+	} else {
+		p, isNew = free[z.Intn(len(free))], true
+		shape = make([]int, z.Range(1, 3))
+		for d := range shape {
+			shape[d] = z.Range(1, 5)
+		}
+	}
+	// the shape of the source: a block of the dataset with one extent 0 (sometimes two, sometimes all)
+	rank := len(shape)
+	if !isNew && z.Chance(0.05) {
+		rank = rank%3 + 1 // data of another rank than the dataset
+		key("rank-mismatch")
+	}
+	blk := make([]int, rank)
+	for d := range blk {
+		ext := 3
+		if d < len(shape) && shape[d] >= 1 {
+			ext = shape[d]
+		}
+		blk[d] = z.Range(1, ext)
+	}
+	zd := z.Intn(rank)
+	blk[zd] = 0
+	switch {
+	case z.Chance(0.1):
+		for d := range blk {
+			blk[d] = 0
+		}
+		key("all-extents-0")
+	case rank >= 2 && z.Chance(0.15):
+		blk[(zd+1+z.Intn(rank-1))%rank] = 0
+		key("two-extents-0")
+	}
+	key(fmt.Sprintf("rank%d", rank))
+	if isNew {
+		shape = append([]int{}, shape...)
+		if z.Chance(0.3) { // ow-sim's pattern: Create([count, 0, 0]) then WriteSlice(NewArray3D(0,0,0), [i, 0, 0])
+			for d := range blk {
+				if blk[d] == 0 {
+					shape[d] = 0
+				}
+			}
+			key("dataset-extent-0")
+		}
+		g.add(fmt.Sprintf("create %s %s", p, Is(shape)))
+		g.ds[normPath(p)] = shape
+	}
+	// where the block goes
+	loc := make([]int, len(shape))
+	for d := range loc {
+		b := 0
+		if d < len(blk) {
+			b = blk[d]
+		}
+		loc[d] = z.Intn(shape[d] - b + 1) // Intn(n <= 0) = 0
+	}
+	switch {
+	case z.Chance(0.08):
+		loc[z.Intn(len(loc))] += shape[0] + 1 // an empty block outside the dataset
+		key("loc-outside")
+	case z.Chance(0.04):
+		loc = append(loc, 0) // wrong rank
+		key("loc-rank")
+	case z.Chance(0.03):
+		loc[z.Intn(len(loc))] = -1
+		key("loc-negative")
+	}
+	// the source array
+	writeReturns := false // does Write get past data.Get(NewIndex(0))?
+	if z.Bool() {
+		g.add(fmt.Sprintf("arr 0 %s 0", Is(blk)))
+		key("root")
+	} else {
+		root := make([]int, rank)
+		l := make([]int, rank)
+		step := make([]int, rank)
+		stepped := z.Chance(0.6)
+		for d := range blk {
+			step[d] = 1
+			if stepped {
+				step[d] = z.Range(1, 3)
+			}
+			if blk[d] == 0 {
+				root[d] = z.Range(1, 4)
+				l[d] = z.Intn(root[d])
+				if z.Chance(0.15) {
+					l[d] = root[d] // zero-wide at one past the end
+					key("slice-past-end")
+				}
+			} else {
+				l[d] = z.Intn(2)
+				root[d] = l[d] + (blk[d]-1)*step[d] + 1 + z.Intn(2)
+			}
+		}
+		var st []int
+		if stepped {
+			st = step
+			key("slice-stepped")
+		}
+		start, stride := 0, 1
+		for d := rank - 1; d >= 0; d-- {
+			start += l[d] * stride
+			stride *= root[d]
+		}
+		writeReturns = start < prod(root)
+		g.add(fmt.Sprintf("arr %s %s 1 %s %s %s", Is(g.freshVals(prod(root))), Is(root), Is(l), Is(blk), optIs(st)))
+		key("slice")
+	}
+	g.arrs = append(g.arrs, blk)
+	zi := len(g.arrs) - 1
+	g.add(fmt.Sprintf("load %s 0", p))
+	g.add(fmt.Sprintf("wslice %s %d %s", p, zi, Is(loc)))
+	g.add(fmt.Sprintf("load %s 0", p))
+	key("wslice")
+	switch x := z.Intn(100); {
+	case x < 40: // Write over the dataset: panic, or the shape check
+		g.add(fmt.Sprintf("write %s %d", p, zi))
+		g.add(fmt.Sprintf("load %s 0", p))
+		key("write-existing")
+	case x < 70 && len(free) > 1: // Write to a new path: panic, or an empty dataset is created
+		q := free[z.Intn(len(free))]
+		if normPath(q) != normPath(p) && g.creatable(q) {
+			g.add(fmt.Sprintf("write %s %d", q, zi))
+			g.add(fmt.Sprintf("load %s 0", q))
+			if writeReturns {
+				g.ds[normPath(q)] = blk
+			}
+			key("write-new")
+		}
+	}
+	g.hasW = true
 }
 
 func (g *h5Gen) randSel(shape []int, valid bool) [][]int {
@@ -1458,7 +1681,7 @@ func (g *h5Gen) addPar(k int) {
 }
 
 func genH5(c *Ctx) {
-	c.Stats.Rule = "random programs of Create / Write / WriteSlice / Load(selection) / Exists / Shape / GetDatasets / GetGroups on a fresh file, per element type (8), source arrays of 5 layouts (root, sub-block, stepped, nested, column), selections with nil dimensions, stop/start beyond the extent, steps 1–3, malformed selections and paths; thorough adds concurrent programs; non-trivial = at least one write and one selection load; distinct by program text"
+	c.Stats.Rule = "random programs of Create / Write / WriteSlice / Load(selection) / Exists / Shape / GetDatasets / GetGroups on a fresh file, per element type (8), source arrays of 5 layouts (root, sub-block, stepped, nested, column), selections with nil dimensions, stop/start beyond the extent, steps 1–3, malformed selections and paths; about 6% of the programs (zero_extent_source) add a source array with an extent 0 (fresh root without elements, or a zero-wide slice of a non-empty root, rank 1-3) used in WriteSlice and Write against a dataset of that rank; thorough adds concurrent programs; non-trivial = at least one write and one selection load; distinct by program text"
 	N := 1600
 	if c.Tier == "thorough" {
 		N = 24000
@@ -1475,6 +1698,12 @@ func genH5(c *Ctx) {
 		"uint64 3 exists / exists a load a 0",
 		"float64 3 arr 2 1 2 1 2 0 write g/h/ 0 groups g",
 		"float64 5 arr 4 1 2 3 4 2 2 2 0 write a 0 write a/x 0 load a 0 wslice a 0 2 5 5",
+		// sources with a zero extent (write_empty_panics / writeSlice_empty_noop of OW/Props/C08Seq.lean)
+		"float64 6 create a 3 2 0 0 arr 0 3 0 0 0 0 load a 0 wslice a 0 3 1 0 0 load a 0 write a 0",                           // ow-sim: Create([n,0,0]), WriteSlice(NewArray3D(0,0,0), [i,0,0]); Write panics
+		"float64 7 create a 3 2 2 3 load a 0 arr 0 3 2 0 3 0 wslice a 0 3 0 1 0 load a 0 write a 0 load a 0",                  // 2x0x3 root into a 2x2x3 dataset
+		"int32 6 arr 6 1 2 3 4 5 6 2 2 3 1 2 0 1 2 2 0 0 write a 0 load a 0 write a 0 load a 0 wslice a 0 2 0 0",              // zero-wide slice of a non-empty root: Get(0) exists, Write makes an empty dataset
+		"float32 6 arr 3 1 2 3 1 3 0 write a 0 load a 0 arr 4 1 2 3 4 1 4 1 1 2 1 0 1 1 2 wslice a 1 1 1 load a 0",            // zero-wide STEPPED slice: Unroll() = Impl[2:1] panics inside WriteSlice
+		"int64 7 arr 3 1 2 3 1 3 0 write a 0 load a 0 arr 3 4 5 6 1 3 1 1 3 1 0 0 wslice a 1 1 3 load a 0 write a 1 load a 0", // zero-wide slice at one past the end: WriteSlice no-op, Write panics at Impl[3]
 	}
 	for _, b := range corpus {
 		c.Do(b, true)
@@ -1483,9 +1712,23 @@ func genH5(c *Ctx) {
 	for i := 0; i < N; i++ {
 		elt := ndTypes[i%len(ndTypes)]
 		g := &h5Gen{r: c.R.Fork(), ds: map[string][]int{}}
+		g.z = NewRng(g.r.s ^ 0x5a45524f45585400)
 		nops := g.r.Range(3, 9)
-		for j := 0; j < nops; j++ {
-			g.randomOp()
+		zeroAt := -1
+		if g.z.Chance(0.06) {
+			zeroAt = g.z.Intn(nops + 1)
+		}
+		for j := 0; j <= nops; j++ {
+			if j == zeroAt {
+				g.zeroOps()
+				c.Stats.Count("zero_extent_source")
+				for _, k := range g.zkeys {
+					c.Stats.Count(k)
+				}
+			}
+			if j < nops {
+				g.randomOp()
+			}
 		}
 		if c.Tier == "thorough" && i%6 == 0 {
 			g.addPar(g.r.Range(2, 5))
